@@ -11,6 +11,9 @@ namespace DDS.GenPag
 open DDS DDS.GoSem DDS.GenDense DDS.PStore
 open DDS.Gen.Paginated
 
+theorem elimL_done {σ σ' ρ : Type} (s : σ) (k : σ → Loop σ' ρ) : Loop.elimL (.done s) k = k s := rfl
+theorem elimL_panic {σ σ' ρ : Type} (k : σ → Loop σ' ρ) : Loop.elimL (.panic : Loop σ ρ) k = .panic := rfl
+
 /-! ### `sortBuffer` -/
 
 theorem sortBuffer_eq (s : PStore) (cap : Int) :
@@ -259,5 +262,186 @@ theorem compact_loop3_eq (cap : Int) (s : PStore) (p : Int) : ∀ (l pre : List 
     · rw [spanPage_cons_neg s p x xs hp]
       rw [if_neg (by simpa using hp)]
       simp
+
+/-! ### `compact`: removing a group from the buffer -/
+
+theorem slice_group (A G R : List Int) :
+    GoSem.slice (A ++ (G ++ R)) (A.length : Int) ((A.length + G.length : Nat) : Int) = some G := by
+  unfold GoSem.slice
+  rw [if_neg (by simp only [List.length_append]; omega)]
+  simp only [Int.toNat_natCast]
+  rw [← List.append_assoc, List.take_left' (by simp), List.drop_left]
+
+theorem copyWithin_group (A G R : List Int) :
+    GoSem.copyWithin (A ++ (G ++ R)) (A.length : Int) ((A.length + G.length : Nat) : Int)
+        (GoSem.len (A ++ (G ++ R)))
+      = some (A ++ R ++ (G ++ R).drop R.length) := by
+  unfold GoSem.copyWithin GoSem.len
+  rw [if_neg (by simp only [List.length_append]; omega)]
+  simp only [Int.toNat_natCast, List.length_append]
+  rw [show min (A.length + (G.length + R.length) - A.length)
+      (A.length + (G.length + R.length) - (A.length + G.length)) = R.length by omega]
+  have h1 : List.drop (A.length + G.length) (A ++ (G ++ R)) = R := by
+    rw [← List.append_assoc, List.drop_left' (by simp)]
+  have h2 : List.drop (A.length + R.length) (A ++ (G ++ R)) = List.drop R.length (G ++ R) := by
+    rw [← List.drop_drop, List.drop_left]
+  rw [List.take_left, h1, h2, List.take_length]
+
+theorem sliceTo_group (A R J : List Int) (g : Nat) (hJ : J.length = g) :
+    GoSem.sliceTo (A ++ R ++ J) (GoSem.len (A ++ R ++ J) + (A.length : Int) - ((A.length + g : Nat) : Int))
+      = some (A ++ R) := by
+  unfold GoSem.sliceTo GoSem.len
+  rw [if_neg (by simp only [List.length_append]; omega)]
+  have : ((((A ++ R ++ J).length : Nat) : Int) + (A.length : Int) - ((A.length + g : Nat) : Int)).toNat
+      = (A ++ R).length := by simp only [List.length_append]; omega
+  rw [this, List.take_left]
+
+/-! ### `compact`: the outer loop -/
+
+theorem foldlM_addLine_eq (k : Nat) (grp : List Int) (s : PStore) :
+    grp.foldlM (fun acc i => addAtPage acc k (acc.lineIndex i) 1) s = grp.foldlM (addLine k) s := rfl
+
+theorem addLine_log2 (k : Nat) (s s' : PStore) (i : Int) (h : addLine k s i = some s') :
+    s'.pageLenLog2 = s.pageLenLog2 := by
+  unfold addLine PStore.addAtPage at h
+  simp only at h
+  split at h
+  · cases h; rfl
+  · cases h
+
+theorem foldlM_addLine_log2 (k : Nat) : ∀ (grp : List Int) (s s' : PStore),
+    grp.foldlM (addLine k) s = some s' → s'.pageLenLog2 = s.pageLenLog2 := by
+  intro grp
+  induction grp with
+  | nil => intro s s' h; cases h; rfl
+  | cons i grp ih =>
+    intro s s' h
+    simp only [List.foldlM_cons, Option.bind_eq_bind, Option.bind_eq_some_iff] at h
+    obtain ⟨s1, h1, h2⟩ := h
+    rw [ih s1 s' h2, addLine_log2 k s s1 i h1]
+
+/-- fuel for the outer loop of `compact`, following the model's `compactLoop`: one unit per group, plus what
+    the group scan (`loop3`) and `page` need inside the iteration -/
+def loopFuel : PStore → Nat → List Int → Nat
+  | _, 0, _ => 1
+  | _, _ + 1, [] => 1
+  | s, n + 1, x :: xs =>
+    max (max (s.spanPage (s.pageIndex x) (x :: xs)).1.length (pageFuel s (s.pageIndex x)))
+      (match s.page (s.pageIndex x)
+          (decide ((s.spanPage (s.pageIndex x) (x :: xs)).1.length * 64 ≥ s.pageLen * 64)) with
+        | none => 0
+        | some (s', some k) =>
+          match (s.spanPage (s.pageIndex x) (x :: xs)).1.foldlM (addLine k) s' with
+          | none => 0
+          | some s'' => loopFuel s'' n (s.spanPage (s.pageIndex x) (x :: xs)).2
+        | some (s', none) => loopFuel s' n (s.spanPage (s.pageIndex x) (x :: xs)).2) + 1
+
+theorem compact_loop1_nil (cap : Int) (L : Int) (sm : PStore) (kept : List Int) (fuel : Nat) (hf : 1 ≤ fuel) :
+    BufferedPaginatedStore.compact.loop1 L fuel (kept.length : Int) (toGen (setBuf sm (kept.reverse ++ [])) cap)
+      = .done ((kept.reverse.length : Int), toGen (setBuf sm kept.reverse) cap) := by
+  obtain ⟨f, rfl⟩ : ∃ f, fuel = f + 1 := ⟨fuel - 1, by omega⟩
+  unfold BufferedPaginatedStore.compact.loop1
+  simp [GoSem.len]
+
+theorem compact_loop1_eq (hpage : PageSpec) (cap : Int) : ∀ (n : Nat) (l : List Int) (sm : PStore)
+    (kept : List Int) (fuel : Nat), l.length ≤ n → loopFuel sm n l ≤ fuel →
+    BufferedPaginatedStore.compact.loop1 ((sm.pageLen : Nat) : Int) fuel (kept.length : Int)
+        (toGen (setBuf sm (kept.reverse ++ l)) cap)
+      = match sm.compactLoop n l kept with
+        | none => .panic
+        | some r => .done ((r.2.length : Int), toGen (setBuf r.1 r.2) cap) := by
+  intro n
+  induction n with
+  | zero =>
+    intro l sm kept fuel hl hf
+    have : l = [] := List.eq_nil_of_length_eq_zero (by omega)
+    subst this
+    rw [compact_loop1_nil cap _ sm kept fuel (by simpa [loopFuel] using hf)]
+    rfl
+  | succ n ih =>
+    intro l sm kept fuel hl hf
+    cases l with
+    | nil =>
+      rw [compact_loop1_nil cap _ sm kept fuel (by simpa [loopFuel] using hf)]
+      rfl
+    | cons x xs =>
+      obtain ⟨A, hA⟩ : ∃ A, A = kept.reverse := ⟨_, rfl⟩
+      have hAl : (kept.length : Int) = (A.length : Int) := by rw [hA, List.length_reverse]
+      have hab := (PagCompact.spanPage_spec sm (sm.pageIndex x) xs).1
+      rw [loopFuel] at hf
+      unfold PStore.compactLoop
+      dsimp only
+      rw [spanPage_cons_pos sm _ x xs rfl] at hf ⊢
+      generalize hsp : sm.spanPage (sm.pageIndex x) xs = ab at hab hf ⊢
+      obtain ⟨a, b⟩ := ab
+      simp only at hab hf ⊢
+      subst hab
+      obtain ⟨f, rfl⟩ : ∃ f, fuel = f + 1 := ⟨fuel - 1, by omega⟩
+      rw [← hA, hAl]
+      unfold BufferedPaginatedStore.compact.loop1
+      have hlt : (A.length : Int) < GoSem.len (A ++ x :: (a ++ b)) := by
+        simp only [GoSem.len, List.length_append, List.length_cons]; omega
+      simp only [List.length_cons] at hf hl
+      have hl3 := compact_loop3_eq cap sm (sm.pageIndex x) (a ++ b) (A ++ [x]) f (by rw [hsp]; simp only; omega)
+      rw [hsp] at hl3
+      simp only [List.append_assoc, List.singleton_append, List.length_append, List.length_cons,
+        List.length_nil, Nat.zero_add] at hl3
+      push_cast at hl3
+      simp only [toGen_buffer, setBuf_buffer, hlt, decide_true, if_true, idx_append_cons, optL_some,
+        gen_pageIndex, setBuf_pageIndex, hl3, elimL_done]
+      have hE : decide ((sm.pageLen : Int) * 64 ≤ ((A.length : Int) + 1 + (a.length : Int) - (A.length : Int)) * 64)
+          = decide ((a.length + 1) * 64 ≥ sm.pageLen * 64) := by
+        rw [decide_eq_decide]; omega
+      rw [hE]
+      generalize decide ((a.length + 1) * 64 ≥ sm.pageLen * 64) = e at hf ⊢
+      rw [hpage (setBuf sm _) cap _ e f (by show pageFuel sm _ ≤ f; omega), page_setBuf]
+      cases hpg : sm.page (sm.pageIndex x) e with
+      | none => rfl
+      | some r =>
+        obtain ⟨s1, k?⟩ := r
+        rw [hpg] at hf
+        obtain ⟨hlog, hslot⟩ := page_props sm s1 _ e k? hpg
+        have hpl : s1.pageLen = sm.pageLen := PStore.pageLen_congr hlog
+        simp only [Option.map_some, toRes_some, Res.bindL_ok]
+        cases k? with
+        | none =>
+          simp only at hf
+          have h0 : ¬ ((0 : Int) < GoSem.len (pageOf (setBuf s1 (A ++ x :: (a ++ b))) none)) := by
+            simp [pageOf, GoSem.len]
+          simp only [h0, decide_false, Bool.false_eq_true, if_false]
+          have := ih b s1 ((x :: a).reverse ++ kept) f (by simp only [List.length_append] at hl ⊢; omega) (by omega)
+          rw [hpl] at this
+          have e1 : ((x :: a).reverse ++ kept).reverse ++ b = A ++ x :: (a ++ b) := by simp [hA]
+          have e2 : (((x :: a).reverse ++ kept).length : Int) = ↑A.length + 1 + ↑a.length := by
+            simp only [List.length_append, List.length_reverse, List.length_cons]; omega
+          rw [e1, e2] at this
+          exact this
+        | some k =>
+          simp only at hf
+          obtain ⟨hk1, hk2, hk3⟩ := hslot k rfl
+          have hpo : pageOf (setBuf s1 (A ++ x :: (a ++ b))) (some k) = (s1.pages.getD k #[]).toList := rfl
+          have h0 : (0 : Int) < GoSem.len (s1.pages.getD k #[]).toList := by
+            simp only [GoSem.len, Array.length_toList]; omega
+          have hend : (A.length : Int) + 1 + (a.length : Int) = ((A.length + (x :: a).length : Nat) : Int) := by
+            simp only [List.length_cons]; omega
+          have hsl := slice_group A (x :: a) b
+          have hcw := copyWithin_group A (x :: a) b
+          have hst := sliceTo_group A b ((x :: a ++ b).drop b.length) (x :: a).length (by
+            simp only [List.length_drop, List.length_append]; omega)
+          simp only [List.cons_append] at hsl hcw hst
+          simp only [hpo, h0, decide_true, if_true, toGen_buffer, setBuf_buffer, toGen_minPageIndex,
+            setBuf_minPageIndex, hend, hsl, optL_some, ← hk3]
+          rw [compact_loop2_eq cap k _ (x :: a) s1, foldlM_addLine_eq]
+          cases hfold : List.foldlM (addLine k) s1 (x :: a) with
+          | none => rfl
+          | some s2 =>
+            rw [hfold] at hf
+            simp only at hf
+            simp only [elimL_done, toGen_buffer, setBuf_buffer, hcw, optL_some, hst]
+            have hpl2 : s2.pageLen = sm.pageLen :=
+              PStore.pageLen_congr (by rw [foldlM_addLine_log2 k _ s1 s2 hfold, hlog])
+            have := ih b s2 kept f (by simp only [List.length_append] at hl ⊢; omega) (by omega)
+            rw [hpl2, ← hA, hAl] at this
+            exact this
 
 end DDS.GenPag
